@@ -20,7 +20,7 @@ theorem safe_jLock {s : St} {j : Nat} (h : Safe s) (hj : j < s.nJob) (hpc : (s.j
     have := (h.jobs k hk).lock hc
     rw [hl] at this; cases this
   apply safe_setJob h1
-  · obtain ⟨h0, hn0, hn0b, hn1, hn2, h1, h2, h3, h4, h5, h6, h7, h8, h9, h10, hrec, hnf, hrd, h11, h12, h13, h14⟩ := h.jobs j hj
+  · obtain ⟨h0, hn0, hn0b, hn0c, hn1, hn2, h1, h2, h3, h4, h5, h6, h7, h8, h9, h10, hrec, hnf, hrd, h11, h12, h13, h14⟩ := h.jobs j hj
     generalize s.job j = b at *
     obtain ⟨kind, pc, payload, snap, inputs, trivial, todoIn, out, edit, csnap, newVer, prev, prevZero, nfRead, dlist, live, todoDel⟩ := b
     simp only at hpc; subst hpc
@@ -33,7 +33,7 @@ theorem safe_readyEmpty {s : St} {j : Nat} (h : Safe s) (hj : j < s.nJob) (hpc :
     (hempty : (s.job j).edit.isEmpty = true) :
     Safe (setPc s j .cUnlocked) := by
   apply safe_setPc_plain h
-  obtain ⟨h0, hn0, hn0b, hn1, hn2, h1, h2, h3, h4, h5, h6, h7, h8, h9, h10, hrec, hnf, hrd, h11, h12, h13, h14⟩ := h.jobs j hj
+  obtain ⟨h0, hn0, hn0b, hn0c, hn1, hn2, h1, h2, h3, h4, h5, h6, h7, h8, h9, h10, hrec, hnf, hrd, h11, h12, h13, h14⟩ := h.jobs j hj
   generalize s.job j = b at *
   obtain ⟨kind, pc, payload, snap, inputs, trivial, todoIn, out, edit, csnap, newVer, prev, prevZero, nfRead, dlist, live, todoDel⟩ := b
   simp only at hpc hempty; subst hpc
@@ -62,7 +62,7 @@ theorem safe_jSnap {s : St} {j : Nat} (h : Safe s) (hj : j < s.nJob) (hpc : (s.j
   have hroll : ∀ f ∈ (s.job j).edit.rollAdd, f < s.nextFile := fun f hf => hb0.outlt _ (hed.2 f hf)
   -- step back to `ready` (no clause about the number read under the mutex), then acquire + build
   have hbr : JobOk s j { s.job j with pc := .ready } := by
-    obtain ⟨h0, hn0, hn0b, hn1, hn2, h1, h2, h3, h4, h5, h6, h7, h8, h9, h10, hrec, hnf, hrd, h11, h12, h13, h14⟩ := hb0
+    obtain ⟨h0, hn0, hn0b, hn0c, hn1, hn2, h1, h2, h3, h4, h5, h6, h7, h8, h9, h10, hrec, hnf, hrd, h11, h12, h13, h14⟩ := hb0
     generalize s.job j = b at *
     obtain ⟨kind, pc, payload, snap, inputs, trivial, todoIn, out, edit, csnap, newVer, prev, prevZero, nfRead, dlist, live, todoDel⟩ := b
     simp only at hpc; subst hpc
@@ -87,7 +87,7 @@ theorem safe_jSnap {s : St} {j : Nat} (h : Safe s) (hj : j < s.nJob) (hpc : (s.j
   apply safe_setJob h2
   · have hb2' : JobOk (buildVersion (snapAcquire (setPc s j .ready) (some j)) (s.job j).edit) j { s.job j with pc := .ready } := by
       simpa [setPc, St.setJob] using hb2
-    obtain ⟨h0, hn0, hn0b, hn1, hn2, h1, h2, h3, h4, h5, h6, h7, h8, h9, h10, hrec, hnf, hrd, h11, h12, h13, h14⟩ := hb2'
+    obtain ⟨h0, hn0, hn0b, hn0c, hn1, hn2, h1, h2, h3, h4, h5, h6, h7, h8, h9, h10, hrec, hnf, hrd, h11, h12, h13, h14⟩ := hb2'
     have hown0 := hb0.own
     have hcurlt := h.ver_bound.1
     generalize s.job j = b at *
@@ -111,7 +111,7 @@ theorem safe_jSwap {s : St} {j : Nat} (h : Safe s) (hj : j < s.nJob) (hpc : (s.j
   -- step back to the pc before the clone (no clause about the built version), install, then move on
   have h1 : Safe (setPc s j .ready) := by
     apply safe_setPc_plain h
-    obtain ⟨h0, hn0, hn0b, hn1, hn2, h1, h2, h3, h4, h5, h6, h7, h8, h9, h10, hrec, hnf, hrd, h11, h12, h13, h14⟩ := hb0
+    obtain ⟨h0, hn0, hn0b, hn0c, hn1, hn2, h1, h2, h3, h4, h5, h6, h7, h8, h9, h10, hrec, hnf, hrd, h11, h12, h13, h14⟩ := hb0
     generalize s.job j = b at *
     obtain ⟨kind, pc, payload, snap, inputs, trivial, todoIn, out, edit, csnap, newVer, prev, prevZero, nfRead, dlist, live, todoDel⟩ := b
     simp only at hpc; subst hpc
@@ -144,7 +144,7 @@ theorem safe_jSwap {s : St} {j : Nat} (h : Safe s) (hj : j < s.nJob) (hpc : (s.j
         exact hkj (by cases this; rfl)
   apply safe_setJob h2
   · clear h1 h2 hed hpend hdisk hlock hlt heq
-    obtain ⟨h0, hn0, hn0b, hn1, hn2, h1, h2, h3, h4, h5, h6, h7, h8, h9, h10, hrec, hnf, hrd, h11, h12, h13, h14⟩ := hb0
+    obtain ⟨h0, hn0, hn0b, hn0c, hn1, hn2, h1, h2, h3, h4, h5, h6, h7, h8, h9, h10, hrec, hnf, hrd, h11, h12, h13, h14⟩ := hb0
     generalize s.job j = b at *
     obtain ⟨kind, pc, payload, snap, inputs, trivial, todoIn, out, edit, csnap, newVer, prev, prevZero, nfRead, dlist, live, todoDel⟩ := b
     simp only at hpc; subst hpc
@@ -157,7 +157,7 @@ theorem safe_jCheck {s : St} {j : Nat} (h : Safe s) (hj : j < s.nJob) (hpc : (s.
     Safe (jCheck s j) := by
   unfold jCheck
   apply safe_setJob h
-  · obtain ⟨h0, hn0, hn0b, hn1, hn2, h1, h2, h3, h4, h5, h6, h7, h8, h9, h10, hrec, hnf, hrd, h11, h12, h13, h14⟩ := h.jobs j hj
+  · obtain ⟨h0, hn0, hn0b, hn0c, hn1, hn2, h1, h2, h3, h4, h5, h6, h7, h8, h9, h10, hrec, hnf, hrd, h11, h12, h13, h14⟩ := h.jobs j hj
     generalize s.job j = b at *
     obtain ⟨kind, pc, payload, snap, inputs, trivial, todoIn, out, edit, csnap, newVer, prev, prevZero, nfRead, dlist, live, todoDel⟩ := b
     simp only at hpc; subst hpc
@@ -170,7 +170,7 @@ theorem safe_jPrevRm {cfg : Cfg} {s : St} {j : Nat} (hr : cfg.recheck = true) (h
   dsimp only
   have h1 : Safe (setPc s j .cPrevDone) := by
     apply safe_setPc_plain h
-    obtain ⟨h0, hn0, hn0b, hn1, hn2, h1, h2, h3, h4, h5, h6, h7, h8, h9, h10, hrec, hnf, hrd, h11, h12, h13, h14⟩ := h.jobs j hj
+    obtain ⟨h0, hn0, hn0b, hn0c, hn1, hn2, h1, h2, h3, h4, h5, h6, h7, h8, h9, h10, hrec, hnf, hrd, h11, h12, h13, h14⟩ := h.jobs j hj
     generalize s.job j = b at *
     obtain ⟨kind, pc, payload, snap, inputs, trivial, todoIn, out, edit, csnap, newVer, prev, prevZero, nfRead, dlist, live, todoDel⟩ := b
     simp only at hpc; subst hpc
@@ -195,7 +195,7 @@ theorem safe_cDec {s : St} {j : Nat} (h : Safe s) (hj : j < s.nJob) (hpc : (s.jo
   have hcs := hb0.csnap (by rw [hpc]; rfl)
   have h1 : Safe (setPc s j .cDecd) := by
     apply safe_setPc_plain h
-    obtain ⟨h0, hn0, hn0b, hn1, hn2, h1, h2, h3, h4, h5, h6, h7, h8, h9, h10, hrec, hnf, hrd, h11, h12, h13, h14⟩ := hb0
+    obtain ⟨h0, hn0, hn0b, hn0c, hn1, hn2, h1, h2, h3, h4, h5, h6, h7, h8, h9, h10, hrec, hnf, hrd, h11, h12, h13, h14⟩ := hb0
     generalize s.job j = b at *
     obtain ⟨kind, pc, payload, snap, inputs, trivial, todoIn, out, edit, csnap, newVer, prev, prevZero, nfRead, dlist, live, todoDel⟩ := b
     simp only at hpc; subst hpc
@@ -216,7 +216,7 @@ theorem safe_cRemove {cfg : Cfg} {s : St} {j : Nat} (hr : cfg.recheck = true) (h
   have hcs := hb0.csnap (by rw [hpc]; rfl)
   have h1 : Safe (setPc s j .cRemoved) := by
     apply safe_setPc_plain h
-    obtain ⟨h0, hn0, hn0b, hn1, hn2, h1, h2, h3, h4, h5, h6, h7, h8, h9, h10, hrec, hnf, hrd, h11, h12, h13, h14⟩ := hb0
+    obtain ⟨h0, hn0, hn0b, hn0c, hn1, hn2, h1, h2, h3, h4, h5, h6, h7, h8, h9, h10, hrec, hnf, hrd, h11, h12, h13, h14⟩ := hb0
     generalize s.job j = b at *
     obtain ⟨kind, pc, payload, snap, inputs, trivial, todoIn, out, edit, csnap, newVer, prev, prevZero, nfRead, dlist, live, todoDel⟩ := b
     simp only at hpc; subst hpc
@@ -230,7 +230,7 @@ theorem safe_cRel {s : St} {j : Nat} (h : Safe s) (hj : j < s.nJob)
   have hcs := hb0.csnap (by rw [hpc]; rfl)
   have h1 : Safe (setPc s j .cReleased) := by
     apply safe_setPc_plain h
-    obtain ⟨h0, hn0, hn0b, hn1, hn2, h1, h2, h3, h4, h5, h6, h7, h8, h9, h10, hrec, hnf, hrd, h11, h12, h13, h14⟩ := hb0
+    obtain ⟨h0, hn0, hn0b, hn0c, hn1, hn2, h1, h2, h3, h4, h5, h6, h7, h8, h9, h10, hrec, hnf, hrd, h11, h12, h13, h14⟩ := hb0
     generalize s.job j = b at *
     obtain ⟨kind, pc, payload, snap, inputs, trivial, todoIn, out, edit, csnap, newVer, prev, prevZero, nfRead, dlist, live, todoDel⟩ := b
     simp only at hpc; subst hpc
@@ -244,7 +244,7 @@ theorem safe_jUnlock {s : St} {j : Nat} (h : Safe s) (hj : j < s.nJob) (hpc : (s
   have hlock := hb0.lock (by rw [hpc]; rfl)
   have h1 : Safe (setPc s j .cUnlocked) := by
     apply safe_setPc_plain h
-    obtain ⟨h0, hn0, hn0b, hn1, hn2, h1, h2, h3, h4, h5, h6, h7, h8, h9, h10, hrec, hnf, hrd, h11, h12, h13, h14⟩ := hb0
+    obtain ⟨h0, hn0, hn0b, hn0c, hn1, hn2, h1, h2, h3, h4, h5, h6, h7, h8, h9, h10, hrec, hnf, hrd, h11, h12, h13, h14⟩ := hb0
     generalize s.job j = b at *
     obtain ⟨kind, pc, payload, snap, inputs, trivial, todoIn, out, edit, csnap, newVer, prev, prevZero, nfRead, dlist, live, todoDel⟩ := b
     simp only at hpc; subst hpc
@@ -265,7 +265,7 @@ theorem safe_jUnpend {s : St} {j : Nat} (pc' : Pc) (h : Safe s) (hj : j < s.nJob
   have hb0 := h.jobs j hj
   have h1 : Safe (setPc s j pc') := by
     apply safe_setPc_plain h
-    obtain ⟨h0, hn0, hn0b, hn1, hn2, h1, h2, h3, h4, h5, h6, h7, h8, h9, h10, hrec, hnf, hrd, h11, h12, h13, h14⟩ := hb0
+    obtain ⟨h0, hn0, hn0b, hn0c, hn1, hn2, h1, h2, h3, h4, h5, h6, h7, h8, h9, h10, hrec, hnf, hrd, h11, h12, h13, h14⟩ := hb0
     generalize s.job j = b at *
     obtain ⟨kind, pc, payload, snap, inputs, trivial, todoIn, out, edit, csnap, newVer, prev, prevZero, nfRead, dlist, live, todoDel⟩ := b
     simp only at hpc hpc'; subst hpc
@@ -286,7 +286,7 @@ theorem safe_oDec {s : St} {j : Nat} (h : Safe s) (hj : j < s.nJob) (hpc : (s.jo
   have hown := hb0.own hk (by rw [hpc]; rfl)
   have h1 : Safe (setPc s j .oDecd) := by
     apply safe_setPc_plain h
-    obtain ⟨h0, hn0, hn0b, hn1, hn2, h1, h2, h3, h4, h5, h6, h7, h8, h9, h10, hrec, hnf, hrd, h11, h12, h13, h14⟩ := hb0
+    obtain ⟨h0, hn0, hn0b, hn0c, hn1, hn2, h1, h2, h3, h4, h5, h6, h7, h8, h9, h10, hrec, hnf, hrd, h11, h12, h13, h14⟩ := hb0
     generalize s.job j = b at *
     obtain ⟨kind, pc, payload, snap, inputs, trivial, todoIn, out, edit, csnap, newVer, prev, prevZero, nfRead, dlist, live, todoDel⟩ := b
     simp only at hpc; subst hpc
@@ -306,7 +306,7 @@ theorem safe_oRemove {cfg : Cfg} {s : St} {j : Nat} (hr : cfg.recheck = true) (h
   have hidx := hb0.ownIdx (Or.inl hpc)
   have h1 : Safe (setPc s j .oRemoved) := by
     apply safe_setPc_plain h
-    obtain ⟨h0, hn0, hn0b, hn1, hn2, h1, h2, h3, h4, h5, h6, h7, h8, h9, h10, hrec, hnf, hrd, h11, h12, h13, h14⟩ := hb0
+    obtain ⟨h0, hn0, hn0b, hn0c, hn1, hn2, h1, h2, h3, h4, h5, h6, h7, h8, h9, h10, hrec, hnf, hrd, h11, h12, h13, h14⟩ := hb0
     generalize s.job j = b at *
     obtain ⟨kind, pc, payload, snap, inputs, trivial, todoIn, out, edit, csnap, newVer, prev, prevZero, nfRead, dlist, live, todoDel⟩ := b
     simp only at hpc; subst hpc
@@ -320,7 +320,7 @@ theorem safe_oRel {s : St} {j : Nat} (h : Safe s) (hj : j < s.nJob)
   have hidx := hb0.ownIdx (Or.inr hpc)
   have h1 : Safe (setPc s j .doStart) := by
     apply safe_setPc_plain h
-    obtain ⟨h0, hn0, hn0b, hn1, hn2, h1, h2, h3, h4, h5, h6, h7, h8, h9, h10, hrec, hnf, hrd, h11, h12, h13, h14⟩ := hb0
+    obtain ⟨h0, hn0, hn0b, hn0c, hn1, hn2, h1, h2, h3, h4, h5, h6, h7, h8, h9, h10, hrec, hnf, hrd, h11, h12, h13, h14⟩ := hb0
     generalize s.job j = b at *
     obtain ⟨kind, pc, payload, snap, inputs, trivial, todoIn, out, edit, csnap, newVer, prev, prevZero, nfRead, dlist, live, todoDel⟩ := b
     simp only at hpc; subst hpc
